@@ -341,7 +341,11 @@ theorem step_sep2 (O : Oracles) (f : Format) (s : List Nat) (len b idx : Nat) (s
   unfold stepChar
   rw [if_pos htr]
   unfold stepBody
-  rw [if_neg (by intro h; exact hoh h.1), if_pos ⟨hidx, Or.inr hp⟩]
+  rw [if_neg (by intro h; exact hoh h.1), if_pos ⟨hidx, (by
+    intro h
+    rcases h.2 with h' | h'
+    · rw [hb] at h'; exact absurd h' (by decide)
+    · exact h' (Or.inl hn)), Or.inr hp⟩]
 
 theorem storeFld_frame (t : Token) (F : Flds) (st : St) :
     (storeFld t F st).tok = st.tok ∧ (storeFld t F st).cur = st.cur ∧ (storeFld t F st).prev = st.prev ∧
@@ -522,7 +526,7 @@ theorem step_last_err (O : Oracles) (f : Format) (s : List Nat) (len c idx : Nat
 def St.data (st : St) : Int × Int × Int × Int × Int × Int × Int × Int × Int × TS × Bool × Option DoyV × Option Int :=
   (st.y, st.mo, st.d, st.h, st.mi, st.s, st.ns, st.oh, st.om, st.ts, st.offNeg, st.doy, st.wd)
 
-theorem finish_data (st st' : St) (h : st.data = st'.data) : finish st = finish st' := by
+theorem finish_data (f : Format) (st st' : St) (h : st.data = st'.data) : finish f st = finish f st' := by
   cases st; cases st'
   simp only [St.data, Prod.mk.injEq] at h
   obtain ⟨h1, h2, h3, h4, h5, h6, h7, h8, h9, h10, h11, h12, h13⟩ := h
@@ -860,8 +864,8 @@ theorem parse_back_num7 (O : Oracles) (f : Format) (e : Ep) (hutc : e.ts = TS.UT
     rw [foldFlds_data_eq] at hdat
     rw [if_pos (hfull .Year rfl), if_pos (hfull .Month rfl), if_pos (hfull .Day rfl), if_pos (hfull .Hour rfl),
       if_pos (hfull .Minute rfl), if_pos (hfull .Second rfl), if_pos (hfull .Subsecond rfl)] at hdat
-    have hfin : finish st' = finish ⟨y, mo, dd, h, mi, s, ns, 0, 0, TS.UTC, false, none, none, 0, 0, it0, it0.token, it0⟩ :=
-      finish_data _ _ (by rw [hdat]; rfl)
+    have hfin : finish f st' = finish f ⟨y, mo, dd, h, mi, s, ns, 0, 0, TS.UTC, false, none, none, 0, 0, it0, it0.token, it0⟩ :=
+      finish_data f _ _ (by rw [hdat]; rfl)
     rw [hfin]
     unfold finish buildEpoch
     simp only
@@ -1196,7 +1200,7 @@ theorem parse_back_numT (O : Oracles) (f : Format) (e : Ep)
     have hfd := foldFlds_data_eq ⟨y, mo, dd, h, mi, s, ns⟩ nums (St.init it0)
     rw [if_pos (hfull .Year rfl), if_pos (hfull .Month rfl), if_pos (hfull .Day rfl), if_pos (hfull .Hour rfl),
       if_pos (hfull .Minute rfl), if_pos (hfull .Second rfl), if_pos (hfull .Subsecond rfl)] at hfd
-    have hfin : finish st' = finish ⟨y, mo, dd, h, mi, s, ns, 0, 0, e.ts, false, none, none, 0, 0, it0, it0.token, it0⟩ := by
+    have hfin : finish f st' = finish f ⟨y, mo, dd, h, mi, s, ns, 0, 0, e.ts, false, none, none, 0, 0, it0, it0.token, it0⟩ := by
       apply finish_data
       rw [hdat]
       simp only [St.data, Prod.mk.injEq] at hfd ⊢
@@ -1810,8 +1814,8 @@ theorem parse_back_numZ (O : Oracles) (f : Format) (e : Ep) (off : Dur) (hutc : 
   rw [foldFlds_data_eq] at hdat
   rw [if_pos (hfull .Year rfl), if_pos (hfull .Month rfl), if_pos (hfull .Day rfl), if_pos (hfull .Hour rfl),
     if_pos (hfull .Minute rfl), if_pos (hfull .Second rfl), if_pos (hfull .Subsecond rfl)] at hdat
-  have hfin : finish st' = finish ⟨y, mo, dd, h, mi, s, ns, hh, mm, TS.UTC, decide (sg = 45), none, none, 0, 0, it0, it0.token, it0⟩ :=
-    finish_data _ _ (by rw [hdat]; simp [zData, St.data, St.init])
+  have hfin : finish f st' = finish f ⟨y, mo, dd, h, mi, s, ns, hh, mm, TS.UTC, decide (sg = 45), none, none, 0, 0, it0, it0.token, it0⟩ :=
+    finish_data f _ _ (by rw [hdat]; simp [zData, St.data, St.init])
   rw [hfin]
   unfold finish buildEpoch
   simp only
@@ -2058,8 +2062,8 @@ theorem parse_num7_fields (O : Oracles) (f : Format) (F : Flds) (hF : F.InRange)
     rw [foldFlds_data_eq] at hdat
     rw [if_pos (hfull .Year rfl), if_pos (hfull .Month rfl), if_pos (hfull .Day rfl), if_pos (hfull .Hour rfl),
       if_pos (hfull .Minute rfl), if_pos (hfull .Second rfl), if_pos (hfull .Subsecond rfl)] at hdat
-    have hfin : finish st' = finish ⟨F.y, F.mo, F.d, F.h, F.mi, F.s, F.ns, 0, 0, TS.UTC, false, none, none, 0, 0, it0, it0.token, it0⟩ :=
-      finish_data _ _ (by rw [hdat]; rfl)
+    have hfin : finish f st' = finish f ⟨F.y, F.mo, F.d, F.h, F.mi, F.s, F.ns, 0, 0, TS.UTC, false, none, none, 0, 0, it0, it0.token, it0⟩ :=
+      finish_data f _ _ (by rw [hdat]; rfl)
     rw [hfin]
     unfold Flds.InRange at hF
     unfold finish buildEpoch
